@@ -1,13 +1,19 @@
 """Exec-layer correspondence: build the same program on real modelx and in the Lean driver,
 apply the same operations, and return per-op observations from both sides.
 
-World on the implementation: model `M`, space `S` holding all cells `c<i>` and the by-name
-references `r<j>`; child space `S.Ch` holding the references read by attribute path
-(`Ch.r<j>`); model-level references: the error classes formulas may catch and the execution
-logger `zlog` (a harness function called first in every formula – the ghost `log`).
+World on the implementation: model `M`, space `S` (space 0) and its child space `S.Ch` (space 1).
+A cells `c<i>` lives in the space its description names (`"space"`, default 0); reference `r<j>` lives in
+`S` for j < n_rn and in `S.Ch` otherwise.  A formula reads a reference *by name* (`r<j>`: resolved in the
+namespace of the formula's own space – a `NameError` when the reference lives elsewhere) or through an
+*attribute path* (`Ch.r<j>`, `_space.r<j>`, `_space.parent.r<j>`: `Space.get_attr`, recorded by the executor),
+and calls cells of the other space through a path (`Ch.c<i>`, `_space.parent.c<i>`).  Model-level references:
+the error classes formulas may catch and the execution logger `zlog` (a harness function called first in every
+formula – the ghost `log`).
+Edit ops (besides the value edits): `setref r v` (`space.r = v`: change or create), `delref r` (`del space.r`),
+`setformula c <sexp>` (`cells.formula = …`), `setcached c 0|1` (`cells.is_cached = …`).
 """
 from . import core
-from .expr import Renderer, sexp, KINDS
+from .expr import Renderer, sexp, parse_sexp, KINDS
 from .impl import mx, close_all, quiet, err_kind
 from modelx.core.errors import DeepReferenceError, NoneReturnedError, FormulaError
 
@@ -80,7 +86,8 @@ class ExecImpl:
             self.refimpl = {}
             for r, v in refs.items():
                 self.set_ref(r, v)
-            names = {"cell": lambda c: "c%d" % c, "rn": lambda r: "r%d" % r, "ra": lambda r: "Ch.r%d" % r}
+            self.cell_space = {c["id"]: int(c.get("space", 0)) for c in cells}
+            names = {"cell": self._cell_name, "rn": lambda r: "r%d" % r, "ra": self._attr_path}
             self.rend = Renderer(names, "zlog" if log else None, "zc" if recorder is not None else None)
             self.cells = {}
             self.linemaps = {}
@@ -93,9 +100,29 @@ class ExecImpl:
     def _log(self, cid, key):
         self.log.append(node_s(cid, key))
 
+    def ref_space(self, r):
+        return 0 if r < self.n_rn else 1
+
+    def space_obj(self, k):
+        return self.Ch if k else self.S
+
     def set_ref(self, r, v):
-        sp = self.S if r < self.n_rn else self.Ch
-        setattr(sp, "r%d" % r, v)
+        setattr(self.space_obj(self.ref_space(r)), "r%d" % r, v)
+
+    # how the formula being rendered (`self.rend.cid`) spells a cells / a reference of space `k`
+    def _path_to(self, k):
+        here = self.cell_space.get(self.rend.cid, 0)
+        if here == k:
+            return None
+        return "Ch" if k == 1 else "_space.parent"
+
+    def _cell_name(self, c):
+        p = self._path_to(self.cell_space.get(c, 0))
+        return "c%d" % c if p is None else "%s.c%d" % (p, c)
+
+    def _attr_path(self, r):
+        p = self._path_to(self.ref_space(r))
+        return "%s.r%d" % ("_space" if p is None else p, r)
 
     def define(self, c):
         # "lam": the formula is handed to modelx as a lambda expression instead of a def
@@ -103,7 +130,7 @@ class ExecImpl:
                                    enforce_none=bool(c.get("enforce_none")))
         self.sources[c["id"]] = src
         self.linemaps[c["id"]] = lm
-        cells = self.S.new_cells("c%d" % c["id"], formula=src, is_cached=c["cached"])
+        cells = self.space_obj(int(c.get("space", 0))).new_cells("c%d" % c["id"], formula=src, is_cached=c["cached"])
         cells.allow_none = c["allow_none"]
         self.cells[c["id"]] = cells
 
@@ -165,6 +192,24 @@ class ExecImpl:
                 if kind == "clearall":
                     self.cells[int(op[1])].clear_all()
                     return "ok"
+                if kind == "setref":
+                    self.set_ref(int(op[1]), parse_val(op[2]))
+                    return "ok"
+                if kind == "delref":
+                    r = int(op[1])
+                    delattr(self.space_obj(self.ref_space(r)), "r%d" % r)
+                    return "ok"
+                if kind == "setformula":
+                    cid = int(op[1])
+                    c = next(x for x in self.cells_def if x["id"] == cid)
+                    src, lm = self.rend.render("c%d" % cid, cid, c["nparams"], parse_sexp(" ".join(op[2:])))
+                    self.sources[cid] = src
+                    self.linemaps[cid] = lm
+                    self.cells[cid].formula = src
+                    return "ok"
+                if kind == "setcached":
+                    self.cells[int(op[1])].is_cached = (op[2] == "1")
+                    return "ok"
                 if kind == "obs":
                     return self.observe(op[1])
         except BaseException as e:      # noqa: BLE001
@@ -225,6 +270,17 @@ def model_prelude(cells, refs, maxdepth):
     return lines
 
 
+def space_lines(cells, refs, n_rn):
+    """which space each cells / reference lives in (the model needs it for name resolution and for the set of
+    cells a namespace change notifies)"""
+    lines = []
+    for r in range(max(list(refs) + [n_rn]) + 4):
+        lines.append("space ref %d %d" % (r, 0 if r < n_rn else 1))
+    for c in cells:
+        lines.append("space cell %d %d" % (c["id"], int(c.get("space", 0))))
+    return lines
+
+
 def tri(v):
     return "n" if v is None else str(int(bool(v)))
 
@@ -237,7 +293,7 @@ def run_both(cells, refs, n_rn, maxdepth, ops, observe=OBS, log=True):
     """-> list of records {op, impl, model, obs: {what: (impl, model)}} ; one per op"""
     impl = ExecImpl(cells, refs, n_rn, maxdepth, log=log)
     try:
-        lines = model_prelude(cells, refs, maxdepth)
+        lines = model_prelude(cells, refs, maxdepth) + space_lines(cells, refs, n_rn)
         npre = len(lines)
         recs = []
         for op in ops:
